@@ -133,6 +133,15 @@ func init() {
 			[]Stmt{book, tbl("t", typed(it, "a", "b")...), tbl("fresh", typed(it, "f")...)}})
 	}
 	pairWitnesses = append(pairWitnesses,
+		// C03-k / C05-j: one side is a history that drops a column carried by two adjacent indexes (alone in the first): the
+		// same schema written directly diffs to nothing
+		witness{"w-equal-schemas-history-dropped-column-of-two-indexes", my,
+			[]Stmt{tbl("t", ints("id", "a", "b")...), idx("t", "k_b", false, "b"), idx("t", "k_ba", false, "b", "a"), {Kind: "dropColumn", T: "t", A: "b"}},
+			[]Stmt{tbl("t", ints("id", "a")...), idx("t", "k_ba", false, "a")}},
+		witness{"w-equal-schemas-history-dropped-column-of-two-indexes-new-side", my,
+			[]Stmt{tbl("t", ints("id", "a")...), idx("t", "k_ba", false, "a")},
+			[]Stmt{tbl("t", ints("id", "a", "b")...), idx("t", "k_b", false, "b"), idx("t", "k_ba", false, "b", "a"), {Kind: "dropColumn", T: "t", A: "b"}}})
+	pairWitnesses = append(pairWitnesses,
 		// C01-j: a history that creates and drops a table, diffed against a schema that still has it (both directions),
 		// and a table re-created after the drop while another table follows it
 		witness{"w-history-dropped-first-table-other-side-has-it", my,
